@@ -226,10 +226,11 @@ class State:
     value: AV = Const(None)
     node: ast.AST | None = None
     exc: str = ""
+    alias: dict = field(default_factory=dict)  # local name -> attribute path it was bound to (`pending = self._todo`): effects on the local are effects on the path
 
     def clone(self) -> "State":
         return State(dict(self.env), dict(self.facts), list(self.effects), dict(self.eq),
-                     {k: set(v) for k, v in self.neq.items()}, self.status, self.value, self.node, self.exc)
+                     {k: set(v) for k, v in self.neq.items()}, self.status, self.value, self.node, self.exc, dict(self.alias))
 
 
 # ---------------------------------------------------------------------------------------------- hierarchy oracle
@@ -430,6 +431,13 @@ class Interp:
             if s2.status == "run":
                 for t in n.targets:
                     self.assign(t, v, s2)
+                    if isinstance(t, ast.Name):
+                        # `local = self.attr` binds the local to the same (mutable) object
+                        p = self.path_of(n.value, s2) if isinstance(n.value, ast.Attribute) else None
+                        if p and p.startswith("self.") and len(n.targets) == 1:
+                            s2.alias[t.id] = p
+                        else:
+                            s2.alias.pop(t.id, None)
             out.append(s2)
         return out
 
@@ -493,7 +501,7 @@ class Interp:
 
     def path_of(self, e: ast.expr, s: State) -> str | None:
         if isinstance(e, ast.Name):
-            return e.id
+            return s.alias.get(e.id, e.id) if s is not None else e.id
         if isinstance(e, ast.Attribute):
             b = self.path_of(e.value, s)
             return f"{b}.{e.attr}" if b else None
@@ -1226,6 +1234,8 @@ class Interp:
         return [(Const(e.value), s)]
 
     def e_Name(self, e, s):
+        if e.id in s.alias and s.alias[e.id] in s.env:
+            return [(s.env[s.alias[e.id]], s)]  # the object the local is bound to, with the mutations made through either name
         if e.id in s.env:
             return [(s.env[e.id], s)]
         if e.id in ("True", "False", "None"):
